@@ -77,10 +77,11 @@ Definition klm_telemetry (prt back space : list Z) : Q * list Q * list Q :=
 Definition zlist_eqb (a b : list Z) : bool := if list_eq_dec Z.eq_dec a b then true else false.
 Definition zlistlist_eqb (a b : list (list Z)) : bool := if list_eq_dec (list_eq_dec Z.eq_dec) a b then true else false.
 
-Definition check_klm_counts (c : nat * Z * list Z * list (list Z)) : bool :=
-  let '(W, bitfield, words, got) := c in zlistlist_eqb (klm_line_counts W bitfield words) got.
-Definition check_pod_counts (c : nat * list Z * list (list Z)) : bool :=
-  let '(W, words, got) := c in zlistlist_eqb (pod_line_counts W words) got.
+(* got = the implementation's counts of the line, flattened (pixel-major) *)
+Definition check_klm_counts (c : nat * Z * list Z * list Z) : bool :=
+  let '(W, bitfield, words, got) := c in zlist_eqb (concat (klm_line_counts W bitfield words)) got.
+Definition check_pod_counts (c : nat * list Z * list Z) : bool :=
+  let '(W, words, got) := c in zlist_eqb (concat (pod_line_counts W words)) got.
 
 Definition qclose (tol a b : Q) : bool := Qle_bool (Qabs (a - b)) tol.
 Fixpoint qlist_close (tol : Q) (a b : list Q) : bool :=
